@@ -148,3 +148,106 @@ func execL3Zone(a []string) vlib.Res {
 	}
 	return vlib.Res{Impl: "l3", Oracle: or, Tags: "nt"}
 }
+
+// fail l3shed <global|zone>
+// Load shed at the resolver's own admission (errResolutionCapacity: every
+// in-flight resolution slot taken; errZoneCapacity: this zone's in-flight
+// quota taken) is a failure local to the shed request. Real load, no export:
+// slow.test. answers after a long delay and pins the slot(s); a request for
+// another name is shed meanwhile; once the load is gone the same request is
+// repeated at once. It must reach the (healthy) authorities again and must not
+// be answered from shared failure state.
+func execL3Shed(a []string) vlib.Res {
+	kind := a[0]
+	w := l3.NewWorld(false)
+	defer w.Close()
+	w.AddZone("test.", l3.ZoneOpts{})
+	slow := w.AddZone("slow.test.", l3.ZoneOpts{NSTTL: 3600})
+	fast := w.AddZone("fast.test.", l3.ZoneOpts{NSTTL: 3600})
+	slow.Add("*.slow.test. 300 IN A 192.0.2.210")
+	fast.Add("www.fast.test. 300 IN A 192.0.2.211")
+	hold := 1500 * time.Millisecond
+	maxc := 1
+	pin := 1
+	victim := "www.fast.test."
+	if kind == "zone" {
+		maxc = 64 // per-zone quota = max(64/16, 16) = 16
+		pin = 16
+		victim = "victim.slow.test."
+	}
+	p := l3.NewPipe(w, l3.PipeOpts{Tweak: func(cfg *config.Config) {
+		cfg.Timeout.Duration = 4 * time.Second
+		cfg.QueryTimeout.Duration = 12 * time.Second
+		cfg.MaxConcurrentQueries = maxc
+	}})
+	defer p.Close()
+	// warm the delegations so that the pinned lookups sit at slow.test. only
+	p.Query("warm.slow.test.", dns.TypeA, l3.Flags{})
+	p.Query("www.fast.test.", dns.TypeTXT, l3.Flags{})
+	srv := slow.Servers[0]
+	base := srv.UDPQueries.Load()
+	srv.SetBehaviour(l3.Behaviour{Delay: func(q dns.Question, _ bool) time.Duration {
+		if strings.HasPrefix(q.Name, "pin") {
+			return hold
+		}
+		return 0
+	}})
+	done := make(chan struct{}, pin)
+	for i := 0; i < pin; i++ {
+		go func(i int) {
+			p.Query(fmt.Sprintf("pin%d.slow.test.", i), dns.TypeA, l3.Flags{Client: fmt.Sprintf("10.9.0.%d:4000", i+1)})
+			done <- struct{}{}
+		}(i)
+	}
+	deadline := time.Now().Add(hold / 2)
+	for srv.UDPQueries.Load() < base+int64(pin) && time.Now().Before(deadline) {
+		time.Sleep(time.Millisecond)
+	}
+	pinned := srv.UDPQueries.Load() >= base+int64(pin)
+	shed := p.Query(victim, dns.TypeA, l3.Flags{Client: "10.9.1.1:4000"})
+	for i := 0; i < pin; i++ {
+		<-done
+	}
+	// the load is gone: an independent client repeats the question
+	u0, t0, _ := w.TotalQueries()
+	again := p.Query(victim, dns.TypeA, l3.Flags{Client: "10.9.1.2:4000"})
+	u1, t1, _ := w.TotalQueries()
+	wasShed := shed != nil && shed.Rcode == dns.RcodeServerFailure
+	impl := fmt.Sprintf("pinned=%s shed=%s shed-ede=%v again=%d again-ede=%v upstream=%d", vlib.B(pinned), vlib.B(wasShed), edeOf(shed), rc(again), edeOf(again), (u1-u0)+(t1-t0))
+	or := "-" // no shedding provoked (timing): nothing to judge
+	if pinned && wasShed {
+		or = "ok"
+		ede13 := false
+		if again != nil {
+			for _, c := range edeCodes(again) {
+				ede13 = ede13 || c == 13
+			}
+		}
+		var retained []string
+		for _, e := range cache.VerifC13Entries(cache.VerifC13FailureOf(p.Cache)) {
+			if e.Kind == cache.FailureKindQuestion {
+				retained = append(retained, e.Question.Question.Name)
+			} else {
+				retained = append(retained, "zone:"+e.Zone.Zone)
+			}
+		}
+		if ede13 || (rc(again) == dns.RcodeServerFailure && (u1-u0)+(t1-t0) == 0) {
+			or = fmt.Sprintf("FAIL sig=l3shed/%s/shed-load-became-shared-failure retained=%s", kind, strings.Join(retained, ","))
+		}
+	}
+	return vlib.Res{Impl: impl, Oracle: or, Tags: "nt"}
+}
+
+func rc(m *dns.Msg) int {
+	if m == nil {
+		return -1
+	}
+	return m.Rcode
+}
+
+func edeOf(m *dns.Msg) []int {
+	if m == nil {
+		return nil
+	}
+	return edeCodes(m)
+}
